@@ -45,7 +45,7 @@ def dyn_config(rng, scenario, role_start=None):
     att["start_position"]["known_hosts"] = [start[-1]]
     att["start_position"]["known_networks"] = ["192.168.1.0/24"]
     att["goal"] = {"description": f"Exfiltrate data from 192.168.1.2 to '213.47.23.195' via {start[1]} (not 192.168.1.22)",
-                   "known_networks": rng.choice([[], ["192.168.1.0/24"]]), "known_hosts": rng.choice([[], ["192.168.1.2"]]),
+                   "known_networks": rng.choice([[], ["192.168.1.0/24"], ["213.47.23.192/26"], ["192.168.1.0/24", "213.47.23.192/26"]]), "known_hosts": rng.choice([[], ["192.168.1.2"]]),
                    "controlled_hosts": rng.choice([[], ["192.168.1.2"]]),
                    "known_services": {}, "known_data": {"213.47.23.195": [["User1", "DataFromServer1"]]}, "known_blocks": rng.choice([{}, {"192.168.2.2": ["192.168.1.4"]}])}
     att["max_steps"] = 100
